@@ -60,6 +60,8 @@ func watchdog(limit time.Duration) {
 	lastProgress.Store(time.Now().UnixNano())
 	go func() {
 		tick := 0
+		var seenProgress int64
+		ticksSince := 0
 		for {
 			time.Sleep(time.Second)
 			var ms runtime.MemStats
@@ -70,7 +72,11 @@ func watchdog(limit time.Duration) {
 					os.Exit(3)
 				}
 			}
-			if time.Since(time.Unix(0, lastProgress.Load())) > limit {
+			if lp := lastProgress.Load(); lp != seenProgress {
+				seenProgress, ticksSince = lp, 0
+			}
+			ticksSince++
+			if time.Since(time.Unix(0, lastProgress.Load())) > limit && time.Duration(ticksSince)*time.Second > limit {
 				fmt.Fprintf(os.Stderr, "simharness: watchdog: a single run exceeded %v of wall time\n", limit)
 				os.Exit(3)
 			}
@@ -108,19 +114,22 @@ func spinWatch(onSpin func(spinInfo)) {
 	go func() {
 		last, _ := simrt.WallProgress()
 		since := time.Now()
+		polls := 0 // consecutive polls without progress: a frozen process (SIGSTOP, VM snapshot) makes no polls either
+		const every = 250 * time.Millisecond
 		for {
-			time.Sleep(250 * time.Millisecond)
+			time.Sleep(every)
 			cur, sim := simrt.WallProgress()
 			if sim == nil || cur != last {
-				last, since = cur, time.Now()
+				last, since, polls = cur, time.Now(), 0
 				continue
 			}
-			if time.Since(since) < spinLimit {
+			polls++
+			if time.Since(since) < spinLimit || time.Duration(polls)*every < spinLimit {
 				continue
 			}
 			info := core.Current.Load()
 			if info == nil || info.Sim != sim {
-				last, since = cur, time.Now()
+				last, since, polls = cur, time.Now(), 0
 				continue
 			}
 			buf := make([]byte, 1<<20)
